@@ -443,13 +443,14 @@ type fork struct {
 	bs    bool    // non-coalition validators carry bogus signatures instead of being absent
 	nvh   string  // self | canon : NextValidatorsHash of forged headers (lun, vs=coal)
 	ghost []int   // vs=coal: further validators (power 1 each) whose "signatures" are bogus bytes
+	nilv  bool    // non-coalition validators carry VALID precommits for nil (as a failed round leaves behind)
 	cache map[int64]*types.LightBlock
 }
 
 func forkFromOp(o simcore.Op) *fork {
 	f := &fork{id: o.Int("id"), c: o.Int64("c"), shape: o.Str("shape"), keys: o.Ints("keys"), vs: o.Str("vs"),
 		extra: o.Int64("extra"), tmode: o.Str("tmode"), dt: o.Int64("dt"), rd: o.Int("rd"), top: o.Int64("top"),
-		bs: o.Bool("bs"), nvh: o.Str("nvh"), ghost: o.Ints("ghost"), cache: map[int64]*types.LightBlock{}}
+		bs: o.Bool("bs"), nilv: o.Bool("nil"), nvh: o.Str("nvh"), ghost: o.Ints("ghost"), cache: map[int64]*types.LightBlock{}}
 	for _, p := range o.Ints("pw") {
 		f.pw = append(f.pw, int64(p))
 	}
@@ -577,6 +578,15 @@ func (f *fork) block(ch *chainData, h int64) *types.LightBlock {
 				panic(err)
 			}
 			commit.Signatures[i].Signature = sig
+		case f.nilv && !isGhost[string(v.Address)] && nilKey(ch, f, v.Address) >= 0:
+			// a genuine signature of a validator outside the coalition - for nil: it proves nothing
+			// about this block and must not count towards any threshold
+			commit.Signatures = append(commit.Signatures, types.CommitSig{BlockIDFlag: types.BlockIDFlagNil, ValidatorAddress: v.Address, Timestamp: ts})
+			sig, err := chaingen.Key(nilKey(ch, f, v.Address)).Sign(commit.VoteSignBytes(ch.chainID, int32(i)))
+			if err != nil {
+				panic(err)
+			}
+			commit.Signatures[i].Signature = sig
 		case f.bs || isGhost[string(v.Address)]:
 			commit.Signatures = append(commit.Signatures, types.CommitSig{BlockIDFlag: types.BlockIDFlagCommit, ValidatorAddress: v.Address,
 				Timestamp: ts, Signature: detBytes(64, "bogus", f.id, h, i)})
@@ -587,6 +597,18 @@ func (f *fork) block(ch *chainData, h int64) *types.LightBlock {
 	lb := &types.LightBlock{SignedHeader: &types.SignedHeader{Header: &hdr, Commit: commit}, ValidatorSet: vset}
 	f.cache[h] = lb
 	return lb
+}
+
+// nilKey returns the key index of a validator outside the coalition whose key the simulator
+// holds (a canonical validator, or the fork's silent extra validator), -1 otherwise.
+func nilKey(ch *chainData, f *fork, addr []byte) int {
+	if k, ok := ch.keyIdx[string(addr)]; ok {
+		return k
+	}
+	if f.extra > 0 && bytes.Equal(chaingen.Key(9000+f.id).PubKey().Address(), addr) {
+		return 9000 + f.id
+	}
+	return -1
 }
 
 // pickSubset chooses validators of vals whose power sum falls in the requested class
@@ -786,6 +808,7 @@ func drawFork(rng *simcore.RNG, ch *chainData, id int, ref int64, num, den int64
 	}
 	o["top"] = top
 	o["bs"] = rng.Bool(0.15)
+	o["nil"] = rng.Bool(0.25)
 	return o
 }
 
